@@ -1,3 +1,5 @@
+import json
+
 from circuits import Component, handler
 from circuits.core import Value
 from circuits.net.events import write
@@ -26,11 +28,15 @@ class Protocol(Component):
         packets = self.__buffer.split(DELIMITER)
         self.__buffer = b''
 
-        for packet in packets:
+        last = len(packets) - 1
+        for i, packet in enumerate(packets):
             try:
                 self.__process_packet(packet)
             except ValueError:
-                self.__buffer = packet
+                # not (yet) a packet: only the piece after the last delimiter
+                # can still be completed by the next read
+                if i == last:
+                    self.__buffer = packet
 
     @handler(channel='node_result', priority=100)
     def result_handler(self, event, *args, **kwargs):
@@ -73,6 +79,7 @@ class Protocol(Component):
 
     def __process_packet(self, packet):
         packet = packet.decode('utf-8')
+        json.loads(packet)  # incomplete packet: ValueError, handled by add_buffer
 
         # FIXME: the encoding of values is hardcoded to UTF-8.
         # at least protect against DoS attempts causing UnicodeDecodeError
